@@ -7,7 +7,7 @@
 (* cfg (from the trace's reset event):                                     *)
 (*   req       [method, url, body |-> [kind, len, ...], headers, params]    *)
 (*   settings  [follow, maxRedir, proxy |-> [disabled, http, https,        *)
-(*             noproxy]]   proxies are "-" or [sch, host, port, user]      *)
+(*             noproxy]]   proxies are [sch, host, port, user], sch "-" = none *)
 (*   nodes     the redirect graph: sequence of [url, status, loc]          *)
 (*   connect   how the proxy answers a CONNECT: [status, ...]              *)
 (* state:                                                                  *)
@@ -33,10 +33,10 @@ NodeOf(cfg, u) ==
 
 ProxyOf(cfg, u) ==
   LET name == ProxyFor([disabled |-> cfg.settings.proxy.disabled,
-                        http |-> IF cfg.settings.proxy.http = "-" THEN "-" ELSE "http",
-                        https |-> IF cfg.settings.proxy.https = "-" THEN "-" ELSE "https",
+                        http |-> IF cfg.settings.proxy.http.sch = "-" THEN "-" ELSE "http",
+                        https |-> IF cfg.settings.proxy.https.sch = "-" THEN "-" ELSE "https",
                         noproxy |-> cfg.settings.proxy.noproxy], u.sch, u.labels)
-  IN IF name = "-" THEN "-" ELSE IF name = "http" THEN cfg.settings.proxy.http ELSE cfg.settings.proxy.https
+  IN IF name = "-" THEN NoProxy ELSE IF name = "http" THEN cfg.settings.proxy.http ELSE cfg.settings.proxy.https
 
 InitLoop(cfg) == [cur |-> cfg.req.url, hops |-> 0, redirs |-> 0, expect |-> [k |-> "request"], lastStatus |-> 0]
 
@@ -106,9 +106,9 @@ G07_method(cfg, st, h) == Tun(cfg, st) \/ h.req.method = cfg.req.method
 G07_framingConsistent(cfg, st, h) ==
   Tun(cfg, st) \/
   /\ h.req.framing \in {"none", "length", "chunked"}
-  /\ h.req.framing = "length" => h.req.clv = <<h.req.bodyLen>>
+  /\ h.req.framing = "length" => h.req.clv = <<h.req.rawBodyLen>>
   /\ h.req.framing = "chunked" => (~h.req.midZero /\ h.req.clv = <<>>)
-  /\ h.req.framing = "none" => (h.req.bodyLen = 0 /\ h.req.clv = <<>>)
+  /\ h.req.framing = "none" => (h.req.rawBodyLen = 0 /\ h.req.clv = <<>>)
 G07_bodyFaithful(cfg, st, h) ==
   (Tun(cfg, st) \/ (st.hops >= 1 /\ st.lastStatus \notin {307, 308})) \/
   (h.req.bodyLen = Body(cfg) /\ h.req.bodyLcp = Body(cfg))
@@ -146,10 +146,12 @@ HopGuard(g, cfg, st, h) ==
 \* per-hop peer / Host / proxy choice is C08 on the first request, C10 afterwards
 HopProp(g, st) ==
   CASE g \in {"G09_noExtraRequest", "G09_bound", "G09_resolvedTarget"} -> "C09"
-    [] g \in {"G08_dial", "G08_targetForm", "G08_noFragmentNoCreds", "G08_host"} -> IF st.hops = 0 THEN "C08" ELSE "C10"
+    [] g \in {"G08_dial", "G08_targetForm", "G08_noFragmentNoCreds", "G08_host"} -> "C08"
     [] g \in {"G12_connectOnlyWhenTunnelled", "G12_connectNamesOrigin", "G12_proxyAuthorization", "G12_nothingBeforeAgreement",
               "G12_noSecretsInClear", "G12_sniIsOrigin"} -> "C12"
     [] OTHER -> IF st.hops = 0 THEN "C07" ELSE "C10"
+\* C10 restates C08 for every later hop: those failures are reported under both properties
+AlsoC10(g, st) == st.hops > 0 /\ g \in {"G08_dial", "G08_targetForm", "G08_noFragmentNoCreds", "G08_host"}
 HopViolations(cfg, st, h) == {g \in HopGuards : ~HopGuard(g, cfg, st, h)}
 
 AfterHop(cfg, st) == [After(cfg, st) EXCEPT !.hops = @ + 1]
